@@ -310,6 +310,20 @@ fn run(ctx: &mut Ctx) {
         let h = (!enc::crc32c(&x[..16])).to_be_bytes();
         x[16..20].copy_from_slice(&h);
         differential(ctx, &x, "header crc big endian");
+        // the alignment bytes left out altogether (slice = header + payload + CRC word), the CRC word consistent with what
+        // is there; and left out in part
+        if plen % 4 != 0 {
+            for keep in 0..(4 - plen % 4) {
+                for fl in [0u8, 1] {
+                    let mut x = b[..20 + plen + keep].to_vec();
+                    x[11] = fl;
+                    refix_header(&mut x);
+                    let p = !enc::crc32c(&x[20..]);
+                    x.extend(p.to_le_bytes());
+                    differential(ctx, &x, "alignment bytes left out, payload crc consistent");
+                }
+            }
+        }
         // length not a multiple of 4, truncations, extensions
         for cut in 1..=8.min(n) {
             differential(ctx, &b[..n - cut], "truncated");
@@ -349,6 +363,42 @@ fn run(ctx: &mut Ctx) {
             light(ctx, &b, "declared length sweep");
         }
         ctx.count_n("declared lengths swept", 4096);
+    });
+    // ---- every slice length 24..=2100 (and sampled lengths up to 65 564) with wrong declared lengths of every residue,
+    // both CRC words consistent: no particular size of a datagram is special
+    ctx.cases("slice-length-sweep", 64, |ctx, part, rng| {
+        let board = rng_board(rng);
+        let lens: Vec<usize> = (24..=2100usize).chain((0..200).map(|k| 2100 + (k * 317) % 63_464)).collect();
+        for (k, &l) in lens.iter().enumerate() {
+            if k as u64 % 64 != part {
+                continue;
+            }
+            let body = l - 24;
+            let mut b: Vec<u8> = Vec::with_capacity(l);
+            b.extend(pwb_device_id(&board).to_le_bytes());
+            b.extend(7u32.to_le_bytes());
+            b.extend(8u16.to_le_bytes());
+            b.push(rng.below(4) as u8);
+            b.push(rng.below(2) as u8);
+            b.extend(3u16.to_le_bytes());
+            b.extend(0u16.to_le_bytes());
+            b.extend([0u8; 4]);
+            b.extend(rng.bytes(body).iter().map(|x| x | 1));
+            b.extend([0u8; 4]);
+            let pc = !enc::crc32c(&b[20..l - 4]);
+            b[l - 4..].copy_from_slice(&pc.to_le_bytes());
+            let cands: Vec<usize> = vec![body, body.saturating_sub(1), body.saturating_sub(3), body.saturating_sub(4), body.saturating_sub(8), body + 1, body + 4, 0, 4, body / 2, (body / 8) * 4, 65532, 65535, body.saturating_sub(256), body + 256];
+            for d in cands {
+                if d > 65535 {
+                    continue;
+                }
+                b[14..16].copy_from_slice(&(d as u16).to_le_bytes());
+                let h = !enc::crc32c(&b[..16]);
+                b[16..20].copy_from_slice(&h.to_le_bytes());
+                light(ctx, &b, "slice length sweep");
+                ctx.count("slice lengths x declared lengths swept");
+            }
+        }
     });
     // ---- one header field at a constant from the library's sources and one more header bit / byte changed, with
     // the header CRC consistent
